@@ -16,7 +16,10 @@ DEFECTS = ['duplicate symbol', 'undefined OID parent', 'OID parent imported from
            'two MODULE-IDENTITY clauses', 'INDEX names an undefined object', 'AUGMENTS names an undefined row',
            'string DEFVAL on an integer object', 'empty hex literal as range bound', 'number DEFVAL on an OBJECT IDENTIFIER object',
            'bit-list DEFVAL on an integer object', 'malformed REVISION time', 'row without table / SEQUENCE', 'SEQUENCE OF undefined row type',
-           'duplicate symbol of different kinds', 'import of the same symbol from two modules']
+           'duplicate symbol of different kinds', 'import of the same symbol from two modules',
+           'DEFVAL names an OID label imported from a module that lacks it', 'DEFVAL names an OID label imported from a module that was not found',
+           'INDEX object imported from a module that lacks it', 'AUGMENTS row imported from a module that was not found',
+           'OBJECTS list names an undefined object', 'SYNTAX type imported from a module that lacks it (+ enum DEFVAL)']
 
 
 def pick(table, k):
@@ -77,9 +80,30 @@ def _bad(kind):
         d = [m.object_type('tTable', seq('SEQUENCE OF GhostEntry'), m.oid('iso', 5), access='not-accessible', descr=m.text('d'))]
     elif kind == 19:
         d = [m.value_decl('dup', m.oid('iso', 5)), m.object_type('dup', seq('Integer32'), m.oid('iso', 6), descr=m.text('d'))]
-    else:
+    elif kind == 20:
         imps = [('OTHER-MIB', ['otherRoot']), ('THIRD-MIB', ['otherRoot'])]
         d = [m.value_decl('child', m.oid('otherRoot', 1))]
+    elif kind == 21:
+        imps = [('OTHER-MIB', ['notThere'])]
+        d = [m.object_type('x', seq('OBJECT IDENTIFIER'), m.oid('iso', 5), descr=m.text('d'), defval=[LC('notThere')])]
+    elif kind == 22:
+        imps = [('MISSING-MIB', ['farLabel'])]
+        d = [m.object_type('x', seq('OBJECT IDENTIFIER'), m.oid('iso', 5), descr=m.text('d'), defval=[LC('farLabel')])]
+    elif kind == 23:
+        imps = [('OTHER-MIB', ['notThere'])]
+        d = [m.object_type('tTable', seq('SEQUENCE OF TEntry'), m.oid('iso', 5), access='not-accessible', descr=m.text('d')),
+             m.object_type('tEntry', seq('TEntry'), m.oid('tTable', 1), access='not-accessible', descr=m.text('d'), index=[(False, 'notThere')]),
+             m.sequence_type('TEntry', [('c1', 'Integer32')])]
+    elif kind == 24:
+        imps = [('MISSING-MIB', ['farEntry'])]
+        d = [m.object_type('aTable', seq('SEQUENCE OF AEntry'), m.oid('iso', 5), access='not-accessible', descr=m.text('d')),
+             m.object_type('aEntry', seq('AEntry'), m.oid('aTable', 1), access='not-accessible', descr=m.text('d'), augments='farEntry'),
+             m.sequence_type('AEntry', [('c1', 'Integer32')])]
+    elif kind == 25:
+        d = [m.object_group('grp', m.oid('iso', 5), ['ghostObj'])]
+    else:
+        imps = [('OTHER-MIB', ['NotThereType'])]
+        d = [m.object_type('x', seq('NotThereType'), m.oid('iso', 5), descr=m.text('d'), defval=[LC('up')])]
     return imps, d
 
 
